@@ -237,6 +237,10 @@ def iterNestedSvgs (el : Node) : List Node :=
         else go fuel (rest ++ n.children.filter Node.isLxmlNode)
   go (Traverse.nodeCount el + 1) (el.children.filter Node.isLxmlNode)
 
+/-- what a nested `svg` hands on to the group that replaces it: its attributes named in the generated table
+    `_NESTED_SVG_PRESENTATION_ATTRIB`, in the order written -/
+def nestedPresentation (a : Attrs) : Attrs := a.filter (fun kv => Gen.nestedSvgPresentationAttrib.contains kv.1)
+
 /-- `_unnest_svg(svg, parent_width, parent_height)` → the nodes replacing the nested `svg`.
     Works on the current tree: inner nested svgs are swapped first. -/
 def unnestSvg (svgUid : Nat) (pw ph : Float) : (fuel : Nat) → DocM (List Node)
@@ -276,7 +280,7 @@ def unnestSvg (svgUid : Nat) (pw ph : Float) : (fuel : Nat) → DocM (List Node)
     | none => pure t0
   let gattrs : Attrs := if !(t == (Aff.id : Aff Float)) then [("transform", Aff.tostring t)] else []
   -- the nested svg's presentation attributes go on the outermost group (`attrib.update`: in the order written)
-  let pres : Attrs := svg.attrs.filter (fun (k, _) => Gen.nestedSvgPresentationAttrib.contains k)
+  let pres : Attrs := nestedPresentation svg.attrs
   let kids := svg.children.filter Node.isLxmlNode
   let g := Node.elem gu (Node.svgTag "g") gattrs kids
   let overflow := (svg.getAttr "overflow").getD "hidden"
